@@ -834,4 +834,170 @@ Proof.
     eapply labels_cover; eauto using typed_brsL_labels. eapply find_br_Some_In; eauto.
 Qed.
 
+(* ------------------------------------------------------------------ cut *)
+Lemma leaf_all body : has_continuation body = false -> LeafAt body.
+Proof.
+  destruct body; simpl; intros Hc; try discriminate Hc;
+    [apply leaf_send|apply leaf_sel|apply leaf_close|apply leaf_fwd|apply leaf_call|apply leaf_cast].
+Qed.
+
+Lemma fold_append args : forall acc,
+  fold_left (fun acc n => append_if_not_self n acc) args acc = acc ++ nonself args.
+Proof.
+  induction args as [|a r IH]; intros acc; simpl; [rewrite app_nil_r; auto|].
+  rewrite IH. unfold append_if_not_self, nonself. simpl. destruct (is_self a); simpl; auto.
+  rewrite <- app_assoc. reflexivity.
+Qed.
+Lemma free_names_leaf f : has_continuation f = false -> free_names f = nonself (leaf_names f).
+Proof.
+  destruct f; simpl; intros Hc; try discriminate Hc; unfold append_if_not_self, nonself; simpl;
+    repeat match goal with |- context [is_self ?n] => destruct (is_self n) end; simpl; auto.
+  rewrite fold_append. reflexivity.
+Qed.
+Lemma nonself_idem l : nonself (nonself l) = nonself l.
+Proof.
+  unfold nonself. induction l as [|a l IH]; simpl; auto. destruct (is_self a) eqn:E; simpl; auto.
+  rewrite E. simpl. rewrite IH. reflexivity.
+Qed.
+Lemma in_nonself n l : In n l -> is_self n = false -> In n (nonself l).
+Proof. intros Hin Sf. apply filter_In. split; auto. rewrite Sf. reflexivity. Qed.
+
+Lemma split_ctx_facts g ns acc gl gr : split_ctx D g ns acc gl gr -> gctx D g ->
+  (forall Γ, ctx_rel g Γ -> ctx_rel acc Γ -> ctx_rel gl Γ) /\
+  (forall k v, alookup k gr = Some v -> alookup k g = Some v) /\
+  NoDup (map ident (nonself ns)) /\
+  (forall n, In n (nonself ns) -> ctx_has g (ident n) = true /\ ctx_has gl (ident n) = true) /\
+  (forall k, ctx_has acc k = true -> ctx_has gl k = true).
+Proof.
+  induction 1 as [g acc|g n r acc gl gr Sf SP IH|g n r acc gl gr t h Hn Hh SP IH]; intros Gg.
+  - split; [auto|]. split; [auto|]. split; [constructor|]. split; [intros n []|auto].
+  - assert (E : nonself (n :: r) = nonself r) by (unfold nonself; simpl; rewrite Sf; reflexivity).
+    rewrite E. apply IH; auto.
+  - pose proof (proj1 Hn) as Sf.
+    assert (E : nonself (n :: r) = n :: nonself r) by (unfold nonself; simpl; rewrite Sf; reflexivity).
+    rewrite E. destruct (IH (gctx_without _ _ _ Gg)) as [I1 [I2 [I3 [I4 I5]]]].
+    pose proof (gctx_has _ _ _ _ Gg Hn) as Gt.
+    assert (Hacc : ctx_has gl (ident n) = true).
+    { apply I5. unfold ctx_has, bind. apply amem_true. rewrite alookup_aset, String.eqb_refl. eauto. }
+    split; [|split; [|split; [|split]]].
+    + intros Γ HR HA. apply I1; [apply ctx_rel_without; auto|].
+      intros y t0 L. unfold bind in L. rewrite alookup_aset in L.
+      destruct (String.eqb y (ident n)) eqn:Ey; [|eauto].
+      apply String.eqb_eq in Ey. subst y. injection L as <-.
+      destruct (HR _ _ (proj2 Hn)) as [t' [H1 H2]]. exists t'. split; auto.
+      eapply Htrans; [exact H2|]. apply Hsym, Hunf; auto.
+    + intros k v L. apply I2 in L. unfold without in L. apply alookup_aremove_Some in L. tauto.
+    + simpl. constructor; auto. intros Hin. apply in_map_iff in Hin. destruct Hin as [n' [Hid Hn']].
+      destruct (I4 _ Hn') as [Hc _]. unfold ctx_has, without in Hc. apply amem_true in Hc. destruct Hc as [v Hv].
+      rewrite Hid, alookup_aremove_eq in Hv. discriminate.
+    + intros n' [<-|Hin]; [split; auto; eapply has_ctx; eauto|].
+      destruct (I4 _ Hin) as [Hc Hl]. split; auto. eapply ctx_has_without; eauto.
+    + intros k Hk. apply I5. unfold ctx_has, bind in *. apply amem_true. rewrite alookup_aset.
+      destruct (String.eqb k (ident n)); eauto. apply amem_true in Hk. exact Hk.
+Qed.
+
+Lemma ctx_rel_sub g g' Γ : (forall k v, alookup k g' = Some v -> alookup k g = Some v) -> ctx_rel g Γ -> ctx_rel g' Γ.
+Proof. intros Hs HR x t L. apply HR. apply Hs. exact L. Qed.
+Lemma ctx_rel_nil Γ : ctx_rel [] Γ.
+Proof. intros x t L. discriminate L. Qed.
+
+Lemma rt_new x body k : RtAt k -> RtAt (FNew x body k).
+Proof.
+  intros IHk g sh A f' Γ rs Gg GA SF H HR Hsyn Hfs. pose proof (gctx_wf _ Gg) as Wg. pose proof (proj1 GA) as WA.
+  syn_split Hsyn.
+  simpl in Hfs. apply andb_true_iff in Hfs. destruct Hfs as [Hfs Fk]. apply andb_true_iff in Hfs. destruct Hfs as [Fx Fb].
+  destruct (call_or_not body) as [[fn [args [o ->]]]|NC].
+  - rewrite tc_new_call_eq in H. unfold tc_new_call in H. cbv zeta in H.
+    step H. apply negb_true_iff in G. rename G into PX.
+    step H. step H. step H. pose proof (reuse_guards _ _ G G0) as RU.
+    step H. destruct a as [gl gr0].
+    destruct (split_gamma_sound D HDw _ _ _ _ _ Wg (Forall_nil _) E) as [SP [Wgl Wgr]].
+    destruct (split_ctx_good _ HD _ _ _ _ _ SP Gg (gctx_nil _)) as [Ggl Ggr].
+    destruct (split_ctx_facts _ _ _ _ _ SP Gg) as [SR [SS [SN [SI _]]]].
+    destruct (sig_lookup Sg fn) as [sg|] eqn:SL; [|discriminate H].
+    destruct (HSgw _ _ SL) as [[ft [Eft Wft]] Wps]. rewrite Eft in H.
+    destruct (HSg _ _ SL) as [Gft Gps].
+    unf HDw H Wft.
+    step H. clear E0. step H. step H. step H. step H. step H. injection H as <-.
+    pose proof (good_head _ HD _ _ Hh (Gft _ Eft)) as Gh.
+    assert (EQ : aset (ident x) (Some h) (if ctx_has g (ident x) then aset (ident x) (nty x) gr0 else gr0)
+                 = bind gr0 x h) by (destruct (ctx_has g (ident x)); [apply aset_aset|reflexivity]).
+    rewrite EQ in E2.
+    eapply T_New with (A := h).
+    + apply bd_ok_binder. exact Hsyn.
+    + apply not_prov_shid; auto.
+    + eapply (leaf_call fn args o gl (Some x) h _ Γ rs None); eauto.
+      * apply SR; auto. apply ctx_rel_nil.
+      * split.
+        -- intros n Hin Sf Hp Hc. exfalso. destruct (SI n (in_nonself _ _ Hin Sf)) as [_ Hg].
+           rewrite Hg in Hc. discriminate.
+        -- intros; discriminate.
+        -- right. exact SN.
+    + eapply (IHk (bind gr0 x h) sh); eauto.
+      * apply gctx_bind; auto.
+      * apply shadow_fresh_bind; auto. eapply shadow_fresh_sub; eauto.
+      * apply (ctx_rel_bind gr0 Γ x h). eapply ctx_rel_sub; eauto.
+  - rewrite (tc_new_ax_eq _ _ _ _ _ _ _ _ NC) in H. unfold tc_new_ax in H. cbv zeta in H.
+    step H. apply negb_true_iff in G. rename G into PX.
+    step H. step H. step H. pose proof (reuse_guards _ _ G G0) as RU. apply negb_true_iff in G1.
+    step H. destruct a as [gl gr0].
+    destruct (split_gamma_sound D HDw _ _ _ _ _ Wg (Forall_nil _) E) as [SP [Wgl Wgr]].
+    destruct (split_ctx_good _ HD _ _ _ _ _ SP Gg (gctx_nil _)) as [Ggl Ggr].
+    destruct (split_ctx_facts _ _ _ _ _ SP Gg) as [SR [SS [SN [SI _]]]].
+    destruct (nty x) as [xt|] eqn:Nx; [|discriminate H].
+    step H. step H. rename a into xt1.
+    assert (Gx1 : good D xt1).
+    { split; [exact G2|]. eapply add_missing_syn; eauto. unfold name_syn in Fx. rewrite Nx in Fx. exact Fx. }
+    unf HDw H G2.
+    step H. step H. step H. cbn [unfold_opt] in H.
+    rewrite (unfold_nonname _ _ (head_nonname _ _ _ Hh)) in H. cbn [lift tbind] in H.
+    step H. step H. injection H as <-.
+    pose proof (good_head _ HD _ _ Hh Gx1) as Gh.
+    assert (EQ : aset (ident x) (Some h) (if ctx_has g (ident x) then aset (ident x) (Some xt) gr0 else gr0)
+                 = bind gr0 x h) by (destruct (ctx_has g (ident x)); [apply aset_aset|reflexivity]).
+    rewrite EQ in E5.
+    rewrite (free_names_leaf _ G1) in SN, SI. rewrite nonself_idem in SN, SI.
+    eapply T_New with (A := h).
+    + apply bd_ok_binder. exact Hsyn.
+    + apply not_prov_shid; auto.
+    + eapply (leaf_all body G1 gl (Some (set_nty x (Some h))) h _ Γ rs None); eauto.
+      * apply SR; auto. apply ctx_rel_nil.
+      * split.
+        -- intros n Hin Sf Hp Hc. exfalso. destruct (SI n (in_nonself _ _ Hin Sf)) as [_ Hg].
+           rewrite Hg in Hc. discriminate.
+        -- intros; discriminate.
+        -- right. exact SN.
+    + eapply (IHk (bind gr0 x h) sh); eauto.
+      * apply gctx_bind; auto.
+      * apply shadow_fresh_bind; auto. eapply shadow_fresh_sub; eauto.
+      * apply (ctx_rel_bind gr0 Γ x h). eapply ctx_rel_sub; eauto.
+Qed.
+
+Theorem rt_form_all : (forall f, RtAt f) /\ (forall b, RtBrs b).
+Proof.
+  apply form_branches_ind; intros.
+  - apply leaf_rt, leaf_send.
+  - now apply rt_recv.
+  - apply leaf_rt, leaf_sel.
+  - now apply rt_case.
+  - now apply rt_new.
+  - apply leaf_rt, leaf_close.
+  - now apply rt_wait.
+  - apply leaf_rt, leaf_fwd.
+  - now apply rt_split.
+  - apply leaf_rt, leaf_call.
+  - apply leaf_rt, leaf_cast.
+  - now apply rt_shift.
+  - now apply rt_drop.
+  - now apply rt_print.
+  - apply rt_brs_nil.
+  - now apply rt_brs_cons.
+Qed.
+
+Theorem tc_form_rt g sh A f f' Γ rs :
+  gctx D g -> good D A -> shadow_fresh g sh -> tc_form D Sg g sh (Some A) f = TOk f' ->
+  ctx_rel g Γ -> syn_form rs f = true -> form_syn f = true ->
+  typed ∅ Γ (shid sh) rs A f'.
+Proof. intros. eapply (proj1 rt_form_all); eauto. Qed.
+
 End RtTc.
